@@ -32,7 +32,7 @@ func C09(e *Env) {
 	r.Rule("R09.1c", "the combinators themselves have the documented selection behaviour, decided by abstract evaluation over {nil, empty, non-empty} operands (mergePtr, mergeArgs) and by the order of their stores (mergeMap, mergeServices)", 4)
 	r.Rule("R09.2", "the fold is *i = input.Merge(*i, decoded): accumulator first, the file just read second", 1)
 	r.Rule("R09.3", "findFiles returns the slice it sorted; the sort runs after every element was replaced by its filepath.Clean'ed form; the elements come from filepath.Glob(pattern)", 4)
-	r.Rule("R09.4", "patterns are visited by a range over the patterns field (ascending), files by a range over findFiles' result; the patterns reach the step unchanged from the -i flag; nothing else sorts or reorders in module code (every sort call site is one of the reviewed three)", 5)
+	r.Rule("R09.4", "patterns are visited by a range over the patterns field (ascending), files by a range over findFiles' result; the patterns reach the step unchanged from the -i flag; nothing else sorts or reorders in module code (every sort call site is one of the reviewed three)", 3)
 	r.Rule("R09.5", "the decode target of yaml.Unmarshal and the per-file error list are fresh per file (declared inside the innermost loop body), so a file never inherits the content of the previous one", 1)
 
 	for _, fn := range []struct{ name, typ string }{{"Merge", "Input"}, {"mergeMeta", "Meta"}, {"mergeService", "Service"}} {
